@@ -265,6 +265,14 @@ def correspondence(ctx):
         if bad:
             ctx.violation('C19 fails on the implementation: ' + bad, dict(case=c, derived='second flow state'))
             return
+    def aero(p, c):
+        p.beta, p.gamma, p.flow = 7.5, (0.8 if c['r'] else None), 'x'
+    for t in range(ctx.scale(7, 35)):
+        c, bad = pc.redefinition_check(rng, t, lambda p: pc.quiet(p.calc_kA, silent=True).toarray(), models=('Plate', 'CPanel'),
+                                       extra=aero, skip=('alphadeg',))
+        ctx.evaluations += 1
+        if bad and ctx.violation('C19 fails on the implementation: calc_kA ' + bad, dict(case=c, derived='redefinition')):
+            return
     ctx.cov['input_distribution'] = dist
     ctx.cov['translated_kernels'] = ['%s.%s' % (m, k) for m in ('Plate', 'PlateW', 'CPanel') for k in KERNELS]
 
